@@ -368,6 +368,182 @@ theorem listener_log_from_closed (ops : Rule → WinOps W) (s : Sys W) (os : Lis
 
 end system
 
+/-! ## 5b. the probe counter -/
+
+section probes
+variable {W : Type}
+
+/-- the probe counter is 0 except while half-open, where it stays below `ProbeNum` -/
+def ProbeOk (b : Brk W) : Prop := b.curProbe = 0 ∨ (b.st = .halfOpen ∧ b.curProbe < b.rule.probeNum)
+
+theorem tryPass_probeOk (b : Brk W) (now : Nat) (h : ProbeOk b) : ProbeOk (tryPass b now).1 := by
+  unfold tryPass
+  cases hst : b.st <;> dsimp only
+  · exact h
+  · exact h
+  · split_ifs
+    · rcases h with h | ⟨h, _⟩
+      · exact Or.inl h
+      · rw [hst] at h; cases h
+    · exact h
+
+theorem onComplete_probeOk (ops : Rule → WinOps W) (b : Brk W) (now rt : Nat) (err : Bool) (h : ProbeOk b) :
+    ProbeOk (onComplete ops b now rt err).1 := by
+  unfold onComplete
+  dsimp only
+  cases (ops b.rule).record b.w now { bad := if isBad b.rule rt err = true then 1 else 0, total := 1 } with
+  | none => exact h
+  | some p =>
+    dsimp only
+    have hcz : b.st ≠ .halfOpen → b.curProbe = 0 := by
+      intro hne; rcases h with h | ⟨h, _⟩
+      · exact h
+      · exact absurd h hne
+    cases hst : b.st <;> dsimp only
+    · have := hcz (by rw [hst]; simp)
+      split_ifs <;> exact Or.inl this
+    · split_ifs with h1 h2
+      · exact Or.inl rfl
+      · exact Or.inl rfl
+      · right
+        refine ⟨rfl, ?_⟩
+        dsimp only
+        omega
+    · exact Or.inl (hcz (by rw [hst]; simp))
+
+theorem checkPass_probeOk (res : String) (now : Nat) (l : List (Brk W)) (h : ∀ b ∈ l, ProbeOk b) :
+    ∀ p ∈ (checkPass res now l).1, ProbeOk p.1 := by
+  induction l with
+  | nil => intro p hp; simp [checkPass] at hp
+  | cons b bs ih =>
+    have hb := h b (List.mem_cons_self ..)
+    have hbs := fun c hc => h c (List.mem_cons_of_mem _ hc)
+    simp only [checkPass]
+    by_cases hr0 : b.rule.res = res
+    · rw [if_pos hr0]
+      by_cases hp : (tryPass b now).2.1 = true
+      · rw [if_pos hp]
+        intro p hp'
+        rcases List.mem_cons.mp hp' with rfl | hp'
+        · exact tryPass_probeOk b now hb
+        · exact ih hbs p hp'
+      · rw [if_neg hp]
+        intro p hp'
+        rcases List.mem_cons.mp hp' with rfl | hp'
+        · exact tryPass_probeOk b now hb
+        · obtain ⟨c, hc, rfl⟩ := List.mem_map.mp hp'
+          exact hbs c hc
+    · rw [if_neg hr0]
+      intro p hp'
+      rcases List.mem_cons.mp hp' with rfl | hp'
+      · exact hb
+      · exact ih hbs p hp'
+
+theorem completeAll_probeOk (ops : Rule → WinOps W) (res : String) (now rt : Nat) (err : Bool) (l : List (Brk W))
+    (h : ∀ b ∈ l, ProbeOk b) : ∀ b ∈ (completeAll ops res now rt err l).1, ProbeOk b := by
+  induction l with
+  | nil => intro p hp; simp [completeAll] at hp
+  | cons b bs ih =>
+    have hb := h b (List.mem_cons_self ..)
+    have hbs := fun c hc => h c (List.mem_cons_of_mem _ hc)
+    simp only [completeAll]
+    split_ifs
+    · intro p hp'
+      rcases List.mem_cons.mp hp' with rfl | hp'
+      · exact onComplete_probeOk ops b now rt err hb
+      · exact ih hbs p hp'
+    · intro p hp'
+      rcases List.mem_cons.mp hp' with rfl | hp'
+      · exact hb
+      · exact ih hbs p hp'
+
+/-- **probe_counter_invariant.**  Along any history (rollbacks of blocked probes included) the probe
+    counter of every breaker is 0 unless it is half-open, where it is the number of successful probes of
+    the current phase and below `ProbeNum`.  With `probes_close_and_clear` this gives: a half-open phase
+    ends in Closed exactly at its `max 1 ProbeNum`-th successful probe (if no probe fails before). -/
+theorem probe_counter_invariant (ops : Rule → WinOps W) (s : Sys W) (os : List Op) (h : ∀ b ∈ s.brs, ProbeOk b) :
+    ∀ b ∈ (run ops s os).1.brs, ProbeOk b := by
+  induction os generalizing s with
+  | nil => exact h
+  | cons o os ih =>
+    simp only [run]
+    apply ih
+    cases o with
+    | clock t => exact h
+    | entry id res =>
+      rcases (entry_pass_iff s id res).2 with hp | ⟨k, hk⟩
+      · simp only [step]
+        unfold doEntry at hp ⊢
+        dsimp only at hp ⊢
+        cases hd : (checkPass res s.now s.brs).2.1 with
+        | none =>
+          dsimp only
+          intro b hb
+          obtain ⟨p, hp', rfl⟩ := List.mem_map.mp hb
+          exact checkPass_probeOk res s.now s.brs h p hp'
+        | some k => rw [hd] at hp; simp at hp
+      · simp only [step]
+        rw [blocked_entry_preserves_state s id res k hk]
+        exact h
+    | exit id err =>
+      simp only [step, doExit]
+      cases hf : s.live.find? (fun x => decide (x.id = id)) with
+      | none => exact h
+      | some e => exact completeAll_probeOk ops e.res s.now _ err s.brs h
+
+end probes
+
+/-- a run of good completions on one breaker of the abstract machine -/
+def goodRun (b : Brk Hist) : List (Nat × Nat) → Brk Hist
+  | [] => b
+  | (now, rt) :: cs => goodRun (onComplete histOps b now rt false).1 cs
+
+/-- **good_probes_close.**  From half-open with `c` successful probes so far, `k` further good completions
+    keep the breaker half-open with counter `c + k` as long as `c + k < max 1 ProbeNum`, and the one that
+    makes `c + k = max 1 ProbeNum` closes it with the probe counter reset and the statistics cleared. -/
+theorem good_probes_close (b : Brk Hist) (cs : List (Nat × Nat)) (hh : b.st = .halfOpen)
+    (hpos : ∀ c ∈ cs, 0 < c.1) (hgood : ∀ c ∈ cs, isBad b.rule c.2 false = false) :
+    (b.curProbe + cs.length < max 1 b.rule.probeNum →
+        (goodRun b cs).st = .halfOpen ∧ (goodRun b cs).curProbe = b.curProbe + cs.length) ∧
+    (cs ≠ [] → b.curProbe + cs.length = max 1 b.rule.probeNum →
+        (goodRun b cs).st = .closed ∧ (goodRun b cs).curProbe = 0 ∧ (goodRun b cs).w = []) := by
+  induction cs generalizing b with
+  | nil => exact ⟨fun _ => ⟨hh, rfl⟩, fun h => absurd rfl h⟩
+  | cons c cs ih =>
+    obtain ⟨now, rt⟩ := c
+    have h0 : 0 < now := hpos (now, rt) (List.mem_cons_self ..)
+    have hg : isBad b.rule rt false = false := hgood (now, rt) (List.mem_cons_self ..)
+    have hrec := abstract_record b.rule b.w now { bad := if isBad b.rule rt false = true then 1 else 0, total := 1 } h0
+    obtain ⟨hclose, hstay⟩ := probes_close_and_clear histOps b now rt false _ _ hh hg hrec
+    have hrule : (onComplete histOps b now rt false).1.rule = b.rule := (onComplete_walk histOps b now rt false).2.1
+    simp only [goodRun, List.length_cons]
+    by_cases hc : b.rule.probeNum = 0 ∨ b.rule.probeNum ≤ b.curProbe + 1
+    · obtain ⟨h1, h2, h3, _⟩ := hclose hc
+      constructor
+      · intro hlt; exfalso; rcases hc with hc | hc <;> omega
+      · intro _ heq
+        have hnil : cs = [] := by
+          cases cs with
+          | nil => rfl
+          | cons d ds => exfalso; simp only [List.length_cons] at heq; rcases hc with hc | hc <;> omega
+        subst hnil
+        simp only [goodRun]
+        exact ⟨h1, h2, by rw [h3]; rfl⟩
+    · obtain ⟨h1, h2, _, _⟩ := hstay hc
+      have ih' := ih (onComplete histOps b now rt false).1 h1
+        (fun d hd => hpos d (List.mem_cons_of_mem _ hd))
+        (fun d hd => by rw [hrule]; exact hgood d (List.mem_cons_of_mem _ hd))
+      rw [h2, hrule] at ih'
+      constructor
+      · intro hlt
+        have := ih'.1 (by omega)
+        exact ⟨this.1, by rw [this.2]; omega⟩
+      · intro _ heq
+        have hne : cs ≠ [] := by
+          intro hnil; subst hnil; simp only [List.length_nil] at heq; omega
+        exact ih'.2 hne (by omega)
+
+
 /-! ## 6. non-vacuity: a concrete history on the code-shaped machine (evaluated by `decide`) -/
 
 /-- error-ratio-like rule: trips when `2·bad ≥ total`, 2 buckets of 500 ms, timeout 100 ms -/
